@@ -225,6 +225,7 @@ type callInfo struct {
 	hbView  *core.RegionInfo // != nil: Dispatch(hbView, "heartbeat") was the call
 	push    bool             // PushOperators: several dispatches inside one call
 	pair    bool             // two concurrent Dispatch calls for region g
+	holder  bool             // ... queued behind a third call (for another region) that held the controller lock
 	removed *opTrack         // RemoveOperator(removed) returned true
 	wall    time.Duration
 	reads   int // region-cache reads the controller made during the call
@@ -736,6 +737,9 @@ func (w *world) submitOps(g *reg, res genResult, stale bool, admin bool, waiting
 		t.submitted = true
 		t.g.logf("#%d HARNESS builds op%d via %s from %s view: %v epoch %s", w.evNo, t.id, t.api, map[bool]string{false: "pd's current", true: "a superseded"}[stale], opSteps(t.op), epochStr(t.op.RegionEpoch()))
 	}
+	if w.prepareOnly {
+		return ts
+	}
 	ci := &callInfo{name: name, g: g}
 	w.call(ci, func() {
 		if waiting {
@@ -911,7 +915,7 @@ func (w *world) noteSent(ci *callInfo, cur, prev map[uint64]*opTrack) {
 		if w.inj != nil && w.inj.done {
 			sc.altG, sc.altView = w.inj.g, w.inj.before
 		}
-		if ci.g != nil && (ci.hbView != nil || ci.pair || ci.name == "Dispatch(push)") {
+		if ci.g != nil && !ci.holder && (ci.hbView != nil || ci.pair || ci.name == "Dispatch(push)") {
 			if t := cur[ci.g.id]; t != nil && prev[ci.g.id] == t && t.op.Status() == operator.STARTED {
 				sc.expectRegion = ci.g.id
 			}
